@@ -56,6 +56,9 @@ def cases(tier, seed, PROP):
         # one name used by objects of several TYPES, referred to through attributes that accept an object of any type
         for k in range(12 if tier == 'quick' else 200):
             yield {'stratum': 'same-name-across-types', 'index': k, 'kind': 'across-types'}
+        # the reference 0 given explicitly (to a second origin, to objects) while the defining origin has another one
+        for k in range(12 if tier == 'quick' else 200):
+            yield {'stratum': 'explicit-origin-reference-zero', 'index': k, 'kind': 'origin-zero'}
         yield {'stratum': 'kf-regression', 'index': 0, 'kind': 'kf-c07-across-sets'}
         # identities changed between two writes (rename, another origin): references must follow
         for k in range(60 if tier == 'quick' else 1500):
@@ -113,6 +116,19 @@ def _build_spec(case, PROP, r):
             sp['ops'].append({'op': 'comment', 'name': 'CM-NA', 'attrs': {'text': ['ascii', txt]}})
         else:
             sp['ops'].append({'op': 'zone', 'name': 'Z-NA', 'set_name': 'SET-' + txt, 'attrs': {}})
+        return sp
+    if k == 'origin-zero':
+        sp = gen.base_spec(r.choice([512, 8192]))
+        sp['write'] = {'output_chunk_size': 2 ** 16}
+        sp['ops'].append(gen.origin_op('DEFINING', fsn=1, origin_reference=r.choice([5, 1, 130])))
+        sp['ops'].append(gen.channel_op('CH', '<f8', (3,), fill={'kind': 'pos', 'tag': 1}))
+        sp['ops'].append(gen.frame_op('FR', [1]))
+        sp['ops'].append(gen.origin_op('SECOND', fsn=2, origin_reference=0))
+        zi = len(sp['ops'])
+        for j, t in enumerate(r.sample(['zone', 'axis', 'equipment', 'comment', 'tool', 'long_name'], 3)):
+            sp['ops'].append({'op': t, 'name': f'UNDER-ZERO-{j}', 'attrs': {}, 'origin_reference': 0})
+        sp['ops'].append({'op': 'zone', 'name': 'UNDER-DEFAULT', 'attrs': {}})
+        sp['ops'].append({'op': 'group', 'name': 'G', 'attrs': {'object_list': [{'$ref': zi}, {'$ref': zi + 1}]}, 'origin_reference': 0})
         return sp
     if k == 'across-types':
         sp = gen.minimal(r.choice([512, 8192]))
